@@ -66,6 +66,19 @@ FOCUS[7] = ("- THIS ROUND'S FOCUS: maintenance refactors. At least one of your t
             "to a reviewer and be so for the inputs the existing tests use.")
 
 
+FOCUS[8] = ("- THIS ROUND'S FOCUS: the contract between the library and what a caller does with the objects it hands out or takes in. At least one "
+            "of your two changes must be about one of: (i) returned containers - a getter that starts returning its internal dict / list / "
+            "DataFrame / Series (or a cached one) instead of a fresh copy, or the reverse where callers relied on identity, so that a caller who "
+            "mutates, sorts, extends, pops from or keeps the returned object changes later results; (ii) argument containers - the library "
+            "keeping, sorting or mutating a dict / list / DataFrame the caller passed in and goes on using; (iii) return types and shapes - "
+            "list vs tuple vs generator, float vs numpy scalar vs Decimal, Series vs DataFrame, index type or order, dict key order, None vs "
+            "empty, that differ only in some branch; (iv) default values and argument handling - a changed default, a keyword made positional, "
+            "an `or`-default swallowing a legitimate falsy value (0, 0.0, '', empty list), argument order in an internal call; (v) object "
+            "protocol methods - `__eq__`, `__hash__`, `__repr__`, `__lt__`, `__iter__`, `__len__`, `__bool__`, `__copy__`/`__deepcopy__`, "
+            "pickling - added or changed so that some existing comparison, `in` test, sort, set/dict membership, `if obj:` or copy behaves "
+            "differently.")
+
+
 def rnd_of(i):
     m = re.search(r'-r(\d)$', i)
     return int(m.group(1)) if m else 1
